@@ -1677,6 +1677,8 @@ def popen_ops(case, rp):
                     if k > 1 or len(handed) > 1: probs.append('%s released %d times, handed on %d times' % (u, k, len(handed)))
                     if ended and (k != 1 or len(handed) != 1): probs.append('%s (exit %s, named %s) released %d, handed on %d' % (u, c, u in named, k, len(handed)))
                     if not ended and (k or handed or u not in p._tasks): probs.append('bystander %s was touched' % u)
+                    if not ended and 'watch' in order and u not in [t['uid'] for t in watch]:
+                        probs.append('%s is still running and was not canceled, but the watcher dropped it from its watch list: nobody will collect it' % u)
                     for a in handed:
                         want = 'DONE' if c == 0 else 'FAILED' if c is not None else 'CANCELED'
                         if a[2] != want: probs.append('%s exit %s handed on as %s' % (u, c, a[2]))
